@@ -357,13 +357,6 @@ common::register! {
     q_bye_0 = bye::<_, 0> => 320,
     q_bye_31 = bye::<_, 31> => 320,
     q_bye_32 = bye::<_, 32> => 320,
-    q_bye_utf8_255 = bye_utf8_limit::<_, 255, 100> => 320,
-    q_bye_utf8_256 = bye_utf8_limit::<_, 256, 100> => 320,
-    q_bye_utf8_300 = bye_utf8_limit::<_, 300, 60> => 320,
-    q_item_utf8_255 = sdes_item_utf8_limit::<_, 255, 100, 0> => 320,
-    q_item_utf8_256 = sdes_item_utf8_limit::<_, 256, 100, 0> => 320,
-    q_item_utf8_priv = sdes_item_utf8_limit::<_, 200, 80, 54> => 320,
-    q_item_utf8_priv_over = sdes_item_utf8_limit::<_, 200, 80, 55> => 320,
     q_app = app => 320,
     q_unknown = unknown => 320,
     kf_c16_app_total_size = kf_app_total_size => 320,
@@ -388,9 +381,19 @@ common::register! {
     t_sdes_2x2 = sdes::<_, 2, 2> => 4,
 }
 
+common::register_strcount! {
+    q_bye_utf8_255 = bye_utf8_limit::<_, 255, 100> => 320,
+    q_bye_utf8_256 = bye_utf8_limit::<_, 256, 100> => 320,
+    q_bye_utf8_300 = bye_utf8_limit::<_, 300, 60> => 320,
+    q_item_utf8_255 = sdes_item_utf8_limit::<_, 255, 100, 0> => 320,
+    q_item_utf8_256 = sdes_item_utf8_limit::<_, 256, 100, 0> => 320,
+    q_item_utf8_priv = sdes_item_utf8_limit::<_, 200, 80, 54> => 320,
+    q_item_utf8_priv_over = sdes_item_utf8_limit::<_, 200, 80, 55> => 320,
+}
+
 common::register_hashmap! {
     q_fb_fir = fb_fir => 3,
 }
 
 #[cfg(not(kani))]
-pub const REGISTRIES: &[&[(&str, fn(&mut common::R))]] = &[REGISTRY, REGISTRY_HASHMAP];
+pub const REGISTRIES: &[&[(&str, fn(&mut common::R))]] = &[REGISTRY, REGISTRY_HASHMAP, REGISTRY_STRCOUNT];
